@@ -12,6 +12,9 @@ CHECKS = {
  "C02": dict(engine="E2", technique="explicit-state BFS of the cut graph (node = offset + exact concrete state, edge = next read length) covering all 2^(n-1) segmentations of each stream",
    text="For every stream of the corpus all segmentations are covered as paths of the exhaustively explored cut graph of the real channel/parser/receiver; all terminal observations must coincide.",
    note="merging only on byte-identical pickled state; node cap reported if hit; one fixed thread schedule", ref="DESIGN.md §4 C02"),
+ "C10": dict(engine="E4", technique="language comparison on automata: DFA derived from the compiled patterns + call-site wrapper, exhaustive BFS of the product with the RFC grammar DFA; model bound to the code by exhaustive conformance runs against the real call sites",
+   text="For each lexical gate the accepted language (as a DFA derived from the pattern source and the call-site wrapper, conformance-checked against the real parse_header / ChunkedReceiver / crack_first_line on all strings up to length n over byte-class representatives and on every byte at every seed position) is compared with the RFC grammar DFA by exhaustive search of the product automaton: equality is decided for strings of every length; numeric conversion is exercised at 1..25, 4299..4301, 5000, 10^4, 10^5 digits.",
+   note="regularity; byte-class abstraction (bytes not separated by any set of model or grammar are interchangeable); wrapper models are hand-written but conformance-checked", ref="DESIGN.md §4 C10, §2 E4"),
  "C17": dict(engine="E2", technique="explicit-state BFS over operation histories of the real buffers with exact concrete-state merging, against a reference byte queue",
    text="All histories of append/peek/consume/skip/len/file-view operations up to the stated depth, over sizes around the 8 KiB string limit and each overflow threshold, are executed on the real OverflowableBuffer (real BytesIO/TemporaryFile) and compared step by step with a reference bytearray queue and a final drain; ReadOnlyFileBasedBuffer likewise over prepare sizes, file sizes and start offsets.",
    note="prune() outside the quantifier; random histories beyond the bound are supplementary and non-deciding", ref="DESIGN.md §4 C17"),
@@ -47,6 +50,7 @@ def main():
         "engines": [
             {"name": "E1", "path": "mc/sched.py, mc/explore.py, mc/venv.py", "serves_properties": [k for k, v in CHECKS.items() if v["engine"] == "E1"], "kind_free_text": "stateless deviation-bounded exhaustive explorer of thread interleavings, environment answers and fault placements over the real implementation"},
             {"name": "E2", "path": "mc/seq.py", "serves_properties": [k for k, v in CHECKS.items() if v["engine"] == "E2"], "kind_free_text": "explicit-state breadth-first search over the real sequential transition functions with exact-state merging"},
+            {"name": "E4", "path": "mc/autom.py", "serves_properties": [k for k, v in CHECKS.items() if v["engine"] == "E4"], "kind_free_text": "regex AST -> NFA -> DFA over byte classes, product search for shortest distinguishing strings"},
             {"name": "E5", "path": "mc/props/*.py", "serves_properties": [k for k, v in CHECKS.items() if v["engine"] == "E5"], "kind_free_text": "exhaustive enumeration of finite input/program/configuration products against independent reference models"},
         ],
         "checks": checks,
